@@ -47,6 +47,10 @@ type Case struct {
 	Dying   []int `json:"dying,omitempty"`
 	Before  []int `json:"before,omitempty"`
 	Offline []int `json:"offline,omitempty"`
+	// Bystander: a second, clean-session subscriber to the same topic at QoS 0
+	// is online all the time (it gets its copies first while the persistent
+	// subscriber is away)
+	Bystander bool `json:"bystander,omitempty"`
 }
 
 type verdict struct{ sig, msg string }
@@ -668,6 +672,15 @@ func runDying(c *Case) *verdict {
 	if _, err := p.ConnectID("pub", true); err != nil {
 		return fail("harness/connect", "%v", err)
 	}
+	if c.Bystander {
+		by, _ := b.Dial("bystander")
+		if _, err := by.ConnectID("bystander", true); err != nil {
+			return fail("harness/connect", "%v", err)
+		}
+		if _, err := by.Subscribe([]packet.Subscription{{Topic: "c08/t", QOS: 0}}); err != nil {
+			return fail("harness/subscribe", "%v", err)
+		}
+	}
 	type m struct {
 		tag string
 		qos int
@@ -722,6 +735,11 @@ func runDying(c *Case) *verdict {
 	// wait for the messages themselves
 	got := map[string]int{}
 	fresh := map[string]int{}
+	qosOf := map[string]int{}
+	for _, x := range all {
+		qosOf[x.tag] = x.qos
+	}
+	var lowered *packet.Publish
 	deadline := time.Now().Add(ev.Ceiling())
 	complete := func() bool {
 		for _, x := range all {
@@ -740,8 +758,14 @@ func runDying(c *Case) *verdict {
 				if !pub.Dup {
 					fresh[string(pub.Message.Payload)]++
 				}
+				if q, ok := qosOf[string(pub.Message.Payload)]; ok && int(pub.Message.QOS) != q && lowered == nil {
+					lowered = pub
+				}
 			}
 		}
+	}
+	if lowered != nil {
+		return fail("delivery/qos-lowered", "message %s was published at QoS %d for a subscription granted QoS 2, but reached the persistent subscriber at QoS %d (nothing recorded, nothing to retransmit)", lowered.Message.Payload, qosOf[string(lowered.Message.Payload)], lowered.Message.QOS)
 	}
 	for _, x := range all {
 		if got[x.tag] == 0 {
@@ -777,7 +801,7 @@ func genCase(rt *rapid.T) *Case {
 
 func TestC08(t *testing.T) {
 	run := ev.Start("C08", "fault_enumeration")
-	run.Rule("subscriber scripts of 1-5 rounds over {publish 0-3 QoS 1/2 messages (online, window-blocked or offline), per-delivery action full/half/withhold, drop / DISCONNECT / reconnect clean / reconnect unclean}, window 1-4, at most window+2 messages in flight; every script is run fault free and then once per (operation k, before/after) for EVERY packet on the subscriber's broker-side connection(s), including positions inside the resend phase. Oracle: correct-receiver model + event history (session holds the packet when it is sent and until it is acknowledged, unacknowledged packets retransmitted with DUP / as PUBREL after an unclean reconnect, QoS 2 never re-offered without DUP, nothing accepted is lost, session-present truthful, clean connect discards everything). non-trivial = the connection was lost while a delivery was unacknowledged, or a resume retransmitted something; distinct by (script, fault)")
+	run.Rule("subscriber scripts of 1-5 rounds over {publish 0-3 QoS 1/2 messages (online, window-blocked or offline), per-delivery action full/half/withhold, drop / DISCONNECT / reconnect clean / reconnect unclean}, window 1-4, at most window+2 messages in flight; every script is run fault free and then once per (operation k, before/after) for EVERY packet on the subscriber's broker-side connection(s), including positions inside the resend phase. Oracle: correct-receiver model + event history (session holds the packet when it is sent and until it is acknowledged, unacknowledged packets retransmitted with DUP / as PUBREL after an unclean reconnect, QoS 2 never re-offered without DUP, nothing accepted is lost, session-present truthful, clean connect discards everything). non-trivial = the connection was lost while a delivery was unacknowledged, or a resume retransmitted something; distinct by (script, fault) Dying window: 0-3 messages published on the live connection (left unacknowledged), 1-6 QoS 1/2 messages published after the subscriber's connection was lost and before its client was terminated (the backend's Terminate is held to widen that window), 0-3 while it is offline, optionally with a clean QoS 0 bystander subscribed to the same topic; after the resume every message arrives, at its QoS, a QoS 2 message never twice as new.")
 	run.Assume("scripts: messages are only published while the subscriber's connection state is settled (alive and quiescent, or fully terminated); the window in between is the subject of the dying-window runs (queue never full there: a full queue of a client that is going offline is skipped by documented design)")
 	defer run.Finish(t)
 
@@ -835,6 +859,7 @@ func TestC08(t *testing.T) {
 	run.Rapid(t, "dying-window", ev.Pick(120, 4000), func(rt *rapid.T) {
 		c := &Case{Window: rapid.IntRange(1, 4).Draw(rt, "window"), Before: qs.Draw(rt, "before"), Offline: qs.Draw(rt, "offline")}
 		c.Dying = rapid.SliceOfN(rapid.SampledFrom([]int{1, 2}), 1, 6).Draw(rt, "dying")
+		c.Bystander = rapid.Bool().Draw(rt, "bystander")
 		run.Eval(1)
 		run.Class("dying-window")
 		run.NonTrivialJSON(c)
